@@ -76,6 +76,9 @@ func memoKeyRule(w *World, r *Result, only func(rel string) bool) int {
 			if !ok {
 				return true
 			}
+			if v := identOf(as.Lhs[0]); v == nil || v.Name == "_" {
+				return true // a membership test (insert-if-absent), not a memo: no stored result is reused
+			}
 			lookups = append(lookups, lk{as: as, root: root, keys: keys, chainText: render(info, as.Rhs[0], nil), valueIdent: identOf(as.Lhs[0])})
 			return true
 		})
